@@ -421,7 +421,7 @@ def _encoder(ctx, b):
                 return True
             if x[0] == "call" and str(x[1]).endswith("cmp::min") and len(x[2]) == 2:
                 p, q = norm(x[2][0]), norm(x[2][1])
-                return any(is_len(u) and v[0] == "const" and isinstance(v[1], int) and 0 < v[1] <= 127 for u, v in ((p, q), (q, p)))
+                return any(is_len(u) and const_value(v) is not None and 0 < const_value(v) <= 127 for u, v in ((p, q), (q, p)))
             return False
         for y in subterms(ln):
             a = a or affine(y, is_count)
@@ -781,6 +781,7 @@ def _r10_variable_option_fits_its_length_octet(ctx, b):
             bp = borrowed_place(T, tm["args"][0], cbb, len(b.blocks[cbb]["stmts"]))
             if bp is not None and len(bp) == 2 and bp[1] == ".v" and "Serialise" in b.local_ty(bp[0]) and bp[0] > b.arg_count:
                 len_calls[tm["dest"][0]] = bp[0]
+    seen_bufs = set()
     for bb, idx, st in b.stmts():
         rv = st.get("rv")
         if not (rv and rv["k"] == "bin" and rv["op"] == "Div" and op_place(rv["a"]) and const_int(rv["b"].get("k")) == 8):
@@ -788,11 +789,38 @@ def _r10_variable_option_fits_its_length_octet(ctx, b):
         src = op_place(rv["a"])[0]
         if src not in len_calls or len(st["p"]) != 1:
             continue
-        narrowed = any(s2.get("rv") and s2["rv"]["k"] == "cast" and op_place(s2["rv"]["op"]) == (st["p"][0],) and b.local_ty(s2["p"][0]) == "u8"
+        # the quotient reaches the length octet: narrowed to u8 itself, or after adding the header's unit
+        carriers = {st["p"][0]}
+        for _ in range(3):
+            for _, _, s2 in b.stmts():
+                r2 = s2.get("rv")
+                if not r2 or len(s2["p"]) < 1:
+                    continue
+                if r2["k"] == "bin" and r2["op"] in ("Add", "AddWithOverflow") and any(op_place(o) and op_place(o)[0] in carriers for o in (r2["a"], r2["b"])):
+                    carriers.add(s2["p"][0])
+                elif r2["k"] == "use" and op_place(r2["op"]) and op_place(r2["op"])[0] in carriers:
+                    carriers.add(s2["p"][0])
+        narrowed = any(s2.get("rv") and s2["rv"]["k"] == "cast" and op_place(s2["rv"]["op"]) and op_place(s2["rv"]["op"])[0] in carriers and b.local_ty(s2["p"][0]) == "u8"
                        for _, _, s2 in b.stmts())
-        if not narrowed:
+        if not narrowed or len_calls[src] in seen_bufs:
             continue
+        seen_bufs.add(len_calls[src])
         bufs = [len_calls[src]]
+
+        def sum_only(term, depth=0):
+            t = norm(term)
+            if depth > 12:
+                return False
+            if t[0] == "cast":
+                return sum_only(t[3], depth + 1)
+            if t[0] == "field" and t[2] == "0" and norm(t[1])[0] == "bin" and norm(t[1])[1] == "AddWithOverflow":
+                t = norm(t[1])
+                return sum_only(t[2], depth + 1) and sum_only(t[3], depth + 1)
+            if t[0] == "bin" and t[1] in ("Add", "AddUnchecked"):
+                return sum_only(t[2], depth + 1) and sum_only(t[3], depth + 1)
+            if t[0] == "const":
+                return isinstance(t[1], int) and t[1] >= 0
+            return t[0] == "call" and str(t[1]).endswith("::len")
 
         def measures(term, L):
             return any(y[0] == "call" and str(y[1]).endswith("::len") and y[2] and _root_is(T, y[2][0], L) for y in subterms(norm(term)))
@@ -809,13 +837,14 @@ def _r10_variable_option_fits_its_length_octet(ctx, b):
                     continue          # one padding octet
                 appends.append((cbb, tm))
             guards = []
-            for sbb, d, te, fe in bool_switches(P, b, lambda d, L=L: d[0] == "bin" and d[1] in ("Gt", "Ge") and measures(d[2], L) and
+            for sbb, d, te, fe in bool_switches(P, b, lambda d, L=L: d[0] == "bin" and d[1] in ("Gt", "Ge") and measures(d[2], L) and sum_only(d[2]) and
                                                 const_value(d[3]) is not None and const_value(d[3]) <= LIMIT + (1 if d[1] == "Ge" else 0)):
                 guards.extend(fe)
             for cbb, tm in appends:
                 n += 1
                 ctx.check(edge_dominated(cfg, guards, cbb), "R10", "variable-option-append-within-what-the-length-octet-can-say", ctx.where(b, tm["sp"]),
-                          "an append to the option's scratch buffer must stand on the edge where buffer + addition <= 254 * 8 octets "
+                          "an append to the option's scratch buffer must stand on the edge of a test `buffer length + addition > K` (a plain sum of "
+                          "lengths, K <= 254 * 8 octets) where it is false "
                           "(%d such guard edge(s) found); beyond that `1 + (len / 8) as u8` wraps and the option's length is a lie" % len(guards))
     ctx.floor("R10", "guarded appends to length-counted option buffers", n, 1)
 
